@@ -61,6 +61,10 @@ def oracle(case, obs):
         if k not in exp or not exp[k].startswith(v):
             return {"key": "C01:%s:corrupt" % k, "what": "device holds %s bytes that are not what the "
                     "client asked for" % k, "expected": exp.get(k, b"").hex(), "got": v.hex()}
+    over = getattr(d, "oversize", None)
+    if over:
+        return {"key": "C01:%s:oversize-chunk" % over[0], "what": "the device asked for %d bytes of the %s part "
+                "and was sent %d" % (over[1], over[0], over[2])}
     ok = j.get("errorcode") == 0
     complete = all(got.get(k) == exp[k] for k in exp) and d.reported_success
     if ok and not complete:
@@ -69,6 +73,11 @@ def oracle(case, obs):
     if complete and not ok and not meta.get("bad_sig"):
         return {"key": "C01:complete-not-success", "what": "device consumed everything and reported "
                 "success but the reply is an error", "reply": j}
+    if meta.get("device_success", True) and not meta.get("bad_sig") and not ok:
+        # an abiding device (it asks for every byte of every part and then reports success; no injected
+        # status, no early stop) and a well-formed request: the signature must come back
+        return {"key": "C01:abiding-device-not-success", "what": "well-formed request, abiding device, "
+                "yet the reply is not a success", "reply": j, "held": {k: len(v) for k, v in got.items()}}
     if ok:
         r, s = d.sign_sig
         if j.get("signature") != {"r": r.hex(), "s": s.hex()}:
